@@ -175,7 +175,7 @@ type StInfo struct {
 }
 
 func (e *ParserData) AddStModify(op string, text string) {
-	e.WriteCode(typeStModify, StInfo{op, text})
+	e.WriteCode(typeStModify, StInfo{op, trimExprText(text)})
 }
 
 func (e *ParserData) AddStore(text string) {
